@@ -1,7 +1,8 @@
 -------------------------------- MODULE PyGen --------------------------------
 (* C09: generator of interop histories with the observations PyAbs prescribes. *)
 EXTENDS Integers, Sequences, FiniteSets, TLC, Json
-CONSTANTS Names, Slots, MaxId, MaxOps, ArgT   \* ArgT: argument texts for direct applications
+CONSTANTS Names, Slots, MaxId, MaxOps, ArgT,  \* ArgT: argument texts for direct applications
+          Theme                                  \* "all" | "py" (data and Python callables) | "kg" (Klong functions and handles)
 A == INSTANCE PyAbs
 VARIABLES mon, hist, nid
 Init == mon = A!MonInit(Names, Slots, MaxId) /\ hist = <<>> /\ nid = 0
@@ -21,10 +22,10 @@ CallPy(n, form, args) ==
 
 Next ==
   /\ Len(hist) < MaxOps
-  /\ \/ \E n \in Names, v \in ArgT : Add([op |-> "setdata", n |-> n, v |-> v]) /\ UNCHANGED nid
-     \/ \E n \in Names, ar \in 0..3, kl \in BOOLEAN :
-          nid < MaxId /\ nid' = nid + 1 /\ Add([op |-> "setpy", n |-> n, id |-> nid + 1, ar |-> ar, kl |-> kl])
-     \/ \E n \in Names, i \in 1..Len(Bodies) : Add([op |-> "defkg", n |-> n, ar |-> Bodies[i][1], body |-> Bodies[i][2]]) /\ UNCHANGED nid
+  /\ \/ \E n \in Names, v \in ArgT : Theme # "kg" /\ Add([op |-> "setdata", n |-> n, v |-> v]) /\ UNCHANGED nid
+     \/ \E n \in Names, ar \in 0..3, kl \in BOOLEAN, rz \in BOOLEAN :
+          Theme # "kg" /\ nid < MaxId /\ nid' = nid + 1 /\ Add([op |-> "setpy", n |-> n, id |-> nid + 1, ar |-> ar, kl |-> kl, rz |-> rz])
+     \/ \E n \in Names, i \in 1..Len(Bodies) : Theme # "py" /\ Add([op |-> "defkg", n |-> n, ar |-> Bodies[i][1], body |-> Bodies[i][2]]) /\ UNCHANGED nid
      \/ \E n \in Names : Kind(n) # "none" /\ Add([op |-> "del", n |-> n]) /\ UNCHANGED nid
      \/ \E w \in Slots, n \in Names : Kind(n) = "kg" /\ Add([op |-> "getwrap", w |-> w, n |-> n]) /\ UNCHANGED nid
      \/ \E n \in Names, via \in {"python", "klong"} :
@@ -35,8 +36,8 @@ Next ==
           \/ ar \in {1, 2} /\ \E a \in Tuples(ar, Atoms) : CallPy(n, "at", a)
           \/ ar = 2 /\ \E a \in Tuples(2, ArgT) : CallPy(n, "projl", a) \/ CallPy(n, "projr", a)
           \/ ar = 3 /\ \E a \in Tuples(3, ArgT) : CallPy(n, "projm", a)
-          \/ ar = 1 /\ \E a \in Tuples(3, {"1", "2", "3"}) : CallPy(n, "each", a)
-          \/ ar = 2 /\ \E k \in {2, 3} : \E a \in Tuples(k, {"1", "2", "3"}) : CallPy(n, "over", a)
+          \/ ar = 1 /\ ~mon.store[n].rz /\ \E a \in Tuples(3, {"1", "2", "3"}) : CallPy(n, "each", a)
+          \/ ar = 2 /\ ~mon.store[n].rz /\ \E k \in {2, 3} : \E a \in Tuples(k, {"1", "2", "3"}) : CallPy(n, "over", a)
      \/ \E w \in Slots, k \in 0..3 : \E a \in Tuples(k, Ints) :
           /\ mon.wraps[w] # "" /\ Kind(mon.wraps[w]) = "kg" /\ UNCHANGED nid
           /\ Add([op |-> "callwrap", w |-> w, args |-> a,
